@@ -520,8 +520,8 @@ func genDocClass(c *hc.Ctx, class string) *Doc {
 	}
 
 	if d.VB != nil && (d.W != nil && d.W.Unit != "%" && d.VB[0] >= d.VB[2] || d.H != nil && d.H.Unit != "%" && d.VB[1] >= d.VB[3]) {
-		// known finding C19-viewbox-min-ge-size: with a width/height attribute, a viewBox whose min-x (min-y)
-		// is not below its width (height) is taken for missing (guard of e0b1d5e written for the old reading)
+		// regression class (C19-viewbox-min-ge-size, repaired by fdd9e33): with a width/height attribute, a viewBox whose min-x (min-y)
+		// is not below its width (height) must not be taken for missing
 		d.Features["viewbox-min-ge-size"] = true
 	}
 	root := &Node{Tag: "svg"}
